@@ -272,7 +272,7 @@ package ipmi
 //@ func (*ChassisControlCmd).Operation
 //@ props C06 C11
 //@ assigns nothing
-//@ ensures [C06.op-chassiscontrolcmd] !isnil(result) && result.Function == 0x00 && result.Command == 0x02 && result.Body == 0 && result.Enterprise == 0
+//@ ensures [C06+C11.op-chassiscontrolcmd] !isnil(result) && result.Function == 0x00 && result.Command == 0x02 && result.Body == 0 && result.Enterprise == 0
 
 //@ func (*ChassisControlCmd).RemoteLUN
 //@ props C06
@@ -287,7 +287,7 @@ package ipmi
 //@ func (*CloseSessionCmd).Operation
 //@ props C06 C11
 //@ assigns nothing
-//@ ensures [C06.op-closesessioncmd] !isnil(result) && result.Function == 0x06 && result.Command == 0x3c && result.Body == 0 && result.Enterprise == 0
+//@ ensures [C06+C11.op-closesessioncmd] !isnil(result) && result.Function == 0x06 && result.Command == 0x3c && result.Body == 0 && result.Enterprise == 0
 
 //@ func (*CloseSessionCmd).RemoteLUN
 //@ props C06
@@ -302,7 +302,7 @@ package ipmi
 //@ func (*GetChannelAuthenticationCapabilitiesCmd).Operation
 //@ props C06 C11
 //@ assigns nothing
-//@ ensures [C06.op-getchannelauthenticationcapabilitiescmd] !isnil(result) && result.Function == 0x06 && result.Command == 0x38 && result.Body == 0 && result.Enterprise == 0
+//@ ensures [C06+C11.op-getchannelauthenticationcapabilitiescmd] !isnil(result) && result.Function == 0x06 && result.Command == 0x38 && result.Body == 0 && result.Enterprise == 0
 
 //@ func (*GetChannelAuthenticationCapabilitiesCmd).RemoteLUN
 //@ props C06
@@ -317,7 +317,7 @@ package ipmi
 //@ func (*GetChannelCipherSuitesCmd).Operation
 //@ props C06 C11
 //@ assigns nothing
-//@ ensures [C06.op-getchannelciphersuitescmd] !isnil(result) && result.Function == 0x06 && result.Command == 0x54 && result.Body == 0 && result.Enterprise == 0
+//@ ensures [C06+C11.op-getchannelciphersuitescmd] !isnil(result) && result.Function == 0x06 && result.Command == 0x54 && result.Body == 0 && result.Enterprise == 0
 
 //@ func (*GetChannelCipherSuitesCmd).RemoteLUN
 //@ props C06
@@ -332,7 +332,7 @@ package ipmi
 //@ func (*GetChassisStatusCmd).Operation
 //@ props C06 C11
 //@ assigns nothing
-//@ ensures [C06.op-getchassisstatuscmd] !isnil(result) && result.Function == 0x00 && result.Command == 0x01 && result.Body == 0 && result.Enterprise == 0
+//@ ensures [C06+C11.op-getchassisstatuscmd] !isnil(result) && result.Function == 0x00 && result.Command == 0x01 && result.Body == 0 && result.Enterprise == 0
 
 //@ func (*GetChassisStatusCmd).RemoteLUN
 //@ props C06
@@ -347,7 +347,7 @@ package ipmi
 //@ func (*GetDeviceIDCmd).Operation
 //@ props C06 C11
 //@ assigns nothing
-//@ ensures [C06.op-getdeviceidcmd] !isnil(result) && result.Function == 0x06 && result.Command == 0x01 && result.Body == 0 && result.Enterprise == 0
+//@ ensures [C06+C11.op-getdeviceidcmd] !isnil(result) && result.Function == 0x06 && result.Command == 0x01 && result.Body == 0 && result.Enterprise == 0
 
 //@ func (*GetDeviceIDCmd).RemoteLUN
 //@ props C06
@@ -362,7 +362,7 @@ package ipmi
 //@ func (*GetSDRCmd).Operation
 //@ props C06 C11
 //@ assigns nothing
-//@ ensures [C06.op-getsdrcmd] !isnil(result) && result.Function == 0x0a && result.Command == 0x23 && result.Body == 0 && result.Enterprise == 0
+//@ ensures [C06+C11.op-getsdrcmd] !isnil(result) && result.Function == 0x0a && result.Command == 0x23 && result.Body == 0 && result.Enterprise == 0
 
 //@ func (*GetSDRCmd).RemoteLUN
 //@ props C06
@@ -377,7 +377,7 @@ package ipmi
 //@ func (*GetSDRRepositoryInfoCmd).Operation
 //@ props C06 C11
 //@ assigns nothing
-//@ ensures [C06.op-getsdrrepositoryinfocmd] !isnil(result) && result.Function == 0x0a && result.Command == 0x20 && result.Body == 0 && result.Enterprise == 0
+//@ ensures [C06+C11.op-getsdrrepositoryinfocmd] !isnil(result) && result.Function == 0x0a && result.Command == 0x20 && result.Body == 0 && result.Enterprise == 0
 
 //@ func (*GetSDRRepositoryInfoCmd).RemoteLUN
 //@ props C06
@@ -392,7 +392,7 @@ package ipmi
 //@ func (*GetSensorReadingCmd).Operation
 //@ props C06 C11
 //@ assigns nothing
-//@ ensures [C06.op-getsensorreadingcmd] !isnil(result) && result.Function == 0x04 && result.Command == 0x2d && result.Body == 0 && result.Enterprise == 0
+//@ ensures [C06+C11.op-getsensorreadingcmd] !isnil(result) && result.Function == 0x04 && result.Command == 0x2d && result.Body == 0 && result.Enterprise == 0
 
 //@ func (*GetSensorReadingCmd).RemoteLUN
 //@ props C06
@@ -407,7 +407,7 @@ package ipmi
 //@ func (*GetSessionInfoCmd).Operation
 //@ props C06 C11
 //@ assigns nothing
-//@ ensures [C06.op-getsessioninfocmd] !isnil(result) && result.Function == 0x06 && result.Command == 0x3d && result.Body == 0 && result.Enterprise == 0
+//@ ensures [C06+C11.op-getsessioninfocmd] !isnil(result) && result.Function == 0x06 && result.Command == 0x3d && result.Body == 0 && result.Enterprise == 0
 
 //@ func (*GetSessionInfoCmd).RemoteLUN
 //@ props C06
@@ -422,7 +422,7 @@ package ipmi
 //@ func (*GetSystemGUIDCmd).Operation
 //@ props C06 C11
 //@ assigns nothing
-//@ ensures [C06.op-getsystemguidcmd] !isnil(result) && result.Function == 0x06 && result.Command == 0x37 && result.Body == 0 && result.Enterprise == 0
+//@ ensures [C06+C11.op-getsystemguidcmd] !isnil(result) && result.Function == 0x06 && result.Command == 0x37 && result.Body == 0 && result.Enterprise == 0
 
 //@ func (*GetSystemGUIDCmd).RemoteLUN
 //@ props C06
@@ -437,7 +437,7 @@ package ipmi
 //@ func (*ReserveSDRRepositoryCmd).Operation
 //@ props C06 C11
 //@ assigns nothing
-//@ ensures [C06.op-reservesdrrepositorycmd] !isnil(result) && result.Function == 0x0a && result.Command == 0x22 && result.Body == 0 && result.Enterprise == 0
+//@ ensures [C06+C11.op-reservesdrrepositorycmd] !isnil(result) && result.Function == 0x0a && result.Command == 0x22 && result.Body == 0 && result.Enterprise == 0
 
 //@ func (*ReserveSDRRepositoryCmd).RemoteLUN
 //@ props C06
@@ -452,7 +452,7 @@ package ipmi
 //@ func (*SetSessionPrivilegeLevelCmd).Operation
 //@ props C06 C11
 //@ assigns nothing
-//@ ensures [C06.op-setsessionprivilegelevelcmd] !isnil(result) && result.Function == 0x06 && result.Command == 0x3b && result.Body == 0 && result.Enterprise == 0
+//@ ensures [C06+C11.op-setsessionprivilegelevelcmd] !isnil(result) && result.Function == 0x06 && result.Command == 0x3b && result.Body == 0 && result.Enterprise == 0
 
 //@ func (*SetSessionPrivilegeLevelCmd).RemoteLUN
 //@ props C06
